@@ -384,6 +384,22 @@ class World(object):
                 return
         self.app_done = True
 
+    def early(self):
+        # an application thread that does not wait for the session: it sends while the handshake of the last attempt is running.
+        # The stack may refuse (raise) - then nothing of it may ever reach the wire; if it accepts, the stanza is transmitted once.
+        from yowsup.structs import ProtocolTreeNode
+        self.early_outcome = None
+        self.s.wait_until("handshake-running", lambda: (self.att == len(self.script) and self.nz._wa_noiseprotocol.state == "handshake") or getattr(self, "app_done", False))
+        if getattr(self, "app_done", False) or self.nz._wa_noiseprotocol.state != "handshake":
+            return
+        try:
+            self.rig.top.toLower(ProtocolTreeNode("iq", {"id": "early-1", "type": "get"}))
+            self.early_outcome = "accepted"
+        except sched.Killed:
+            raise
+        except BaseException as e:
+            self.early_outcome = "refused"
+
     def close(self):
         try:
             self.s.kill()
@@ -391,13 +407,15 @@ class World(object):
             self.inst.undo()
 
 
-def run_one(script, rng, chooser_kind, edge, chunking, plan=None, record=None):
+def run_one(script, rng, chooser_kind, edge, chunking, plan=None, record=None, early=False):
     w = World(script, rng, edge=edge, chunking=chunking)
     try:
         s = w.s
         s.spawn("env", w.env)
         s.spawn("net", w.net)
         s.spawn("app", w.app)
+        if early:
+            s.spawn("early", w.early)
         prio = {}
         state = {"n": 0}
         changes = set(rng.sample(range(1, 150), 4))
@@ -483,8 +501,9 @@ def verdict(w, deadlock, script):
                     got.append(ReadDecoder(TokenDictionary()).getProtocolTreeNode(bytearray(pt))["id"])
                 except Exception:
                     got.append("?")
-            if got != ["app-1", "app-2"]:
-                problems.append(("client-frames", "client stanzas at the server %s, sent ['app-1', 'app-2']" % got))
+            accepted = ["early-1"] if getattr(w, "early_outcome", None) == "accepted" else []
+            if sorted(got) != sorted(accepted + ["app-1", "app-2"]) or [g for g in got if g.startswith("app-")] != ["app-1", "app-2"]:
+                problems.append(("client-frames", "client stanzas at the server %s, accepted for sending %s" % (got, accepted + ["app-1", "app-2"])))
             stored = w.profile.config.server_static_public
             from yowsup.config.manager import ConfigManager
             ondisk = ConfigManager().load(w.profile._profile_name, profile_only=True)
@@ -531,7 +550,7 @@ def run():
                 for k in range(nsched if chunking != "bytes" else max(2, nsched // 4)):
                     kind = "fair" if k == 0 else "pct"
                     edge = (k % 3 == 2)
-                    w, dl = run_one(script, rng, kind, edge, chunking)
+                    w, dl = run_one(script, rng, kind, edge, chunking, early=(k % 2 == 1 and len(script) == 1))
                     try:
                         problems, cutoff = verdict(w, dl, script)
                         label = "%s:%s" % ("+".join(s_["v"] for s_ in script), chunking)
